@@ -24,7 +24,8 @@ DIMS = [1, 2, 3, 4, 5, 6, 7, 8, 9, 10, 11, 12, 13, 16, 17, 19, 20, 23, 24, 29, 3
         49, 53, 59, 61, 64, 98, 103, 107]
 # sizes with common divisors (factors dividing both dimensions) and rounding-sensitive widths
 NICE = [(16, 8), (32, 16), (24, 12), (64, 32), (98, 4), (49, 7), (12, 9), (20, 10), (30, 20), (60, 40),
-        (36, 24), (48, 36), (98, 14), (103, 2), (107, 3), (40, 30), (18, 12), (27, 9), (56, 42), (100, 25)]
+        (36, 24), (48, 36), (98, 14), (103, 2), (107, 3), (40, 30), (18, 12), (27, 9), (56, 42), (100, 25),
+        (120, 20), (150, 16), (16, 120), (104, 24), (200, 12)]
 
 
 # ------------------------------------------------------------------ finding predicates (fallback)
@@ -71,6 +72,7 @@ class Gen:
         self.cl = {}          # id -> dict(tw, th, synced, dirty, nfs, mask)
         self.next_id = 0
         self.defer = 0
+        self.chain = set()    # sizes of the scaled screens that exist (for collision-free resizes)
         self.flags = set()
         self.dist = {}
 
@@ -82,9 +84,12 @@ class Gen:
     def join(self):
         i = self.next_id
         self.next_id += 1
-        nfs = 1 if self.rng.random() < 0.25 else 0
-        self.emit("client %d %d" % (i, nfs))
-        self.cl[i] = dict(tw=self.W, th=self.H, synced=False, dirty=True, nfs=nfs, mask=0)
+        nfs = 1 if self.rng.random() < 0.3 else 0
+        enc = self.rng.choice(["raw", "raw", "raw", "corre", "corre", "zlib", "ultra"])
+        if self.fmt == "24":
+            enc = "raw"     # the splitting encoders have no 24 bpp client format (they fail the update)
+        self.emit("client %d %d %s" % (i, nfs, enc))
+        self.cl[i] = dict(tw=self.W, th=self.H, synced=False, dirty=True, nfs=nfs, mask=0, enc=enc)
         return i
 
     def factor(self):
@@ -137,6 +142,8 @@ class Gen:
         tw, th = self.W // n, self.H // n
         if tw and th:
             c["tw"], c["th"] = tw, th
+            if (tw, th) != (self.W, self.H):
+                self.chain.add((tw, th))
         c["synced"] = False
         self.emit("geom")
         self.emit("cl %d" % i)
@@ -170,6 +177,71 @@ class Gen:
         self.emit("draw %d %d %d %d %d" % (x, y, w, h, rng.randrange(1 << 31)))
         for c in self.cl.values():
             c["dirty"] = True
+
+    def tile_draw(self):
+        """a modification whose extent in the view of a CoRRE client is 48 by truncation and 49 after
+        rounding up (starts at a source coordinate that is not a multiple of the factor)"""
+        rng, W, H = self.rng, self.W, self.H
+        cand = [c for c in self.cl.values() if c["enc"] == "corre" and (c["tw"], c["th"]) != (W, H)]
+        rng.shuffle(cand)
+        for c in cand:
+            tw, th = c["tw"], c["th"]
+            # horizontal: smallest w from x = 1 with floor(w*tw/W) == 48 and the corrected extent 49
+            opts = []
+            if tw >= 49:
+                for w in range(1, W):
+                    if 1 + w <= W and (w * tw) // W == 48 and -((-(1 + w) * tw) // W) >= 49:
+                        opts.append((1, rng.randrange(H), w, 1 + rng.randrange(min(6, H)))); break
+            if th >= 49:
+                for h in range(1, H):
+                    if 1 + h <= H and (h * th) // H == 48 and -((-(1 + h) * th) // H) >= 49:
+                        opts.append((rng.randrange(W), 1, 1 + rng.randrange(min(6, W)), h)); break
+            if opts:
+                x, y, w, h = rng.choice(opts)
+                w = min(w, W - x); h = min(h, H - y)
+                self.emit("draw %d %d %d %d %d" % (x, y, w, h, rng.randrange(1 << 31)))
+                for d in self.cl.values():
+                    d["dirty"] = True
+                return True
+        return False
+
+    def newfb(self):
+        """rfbNewFramebuffer: mostly a same-size buffer swap; a resize only when every client would be
+        told (NewFBSize) and the recomputed scaled sizes stay pairwise distinct"""
+        rng, W, H = self.rng, self.W, self.H
+        if self.fmt == "8m" or not self.cl:
+            return
+        nW, nH = W, H
+        if rng.random() < 0.4 and all(c["nfs"] for c in self.cl.values()):
+            for _ in range(6):
+                cw, ch = rng.choice(DIMS), rng.choice(DIMS)
+                if cw * ch > 2600 or (cw, ch) == (W, H):
+                    continue
+                rs = lambda t, o, nn: max(1, t * nn // o)
+                nd = [(rs(a, W, cw), rs(b, H, ch)) for (a, b) in self.chain]
+                if len(set(nd)) == len(nd) and (cw, ch) not in nd:
+                    nW, nH = cw, ch
+                    break
+        if (nW, nH) != (W, H) and (nW < W or nH < H):
+            for j in sorted(self.cl):       # nothing may stay requested outside the smaller screen
+                self.full_req(j, 0)
+        self.emit("newfb %d %d %d" % (nW, nH, rng.randrange(1 << 31)))
+        rs = lambda t, o, nn: max(1, t * nn // o)
+        self.chain = set((rs(a, W, nW), rs(b, H, nH)) for (a, b) in self.chain)
+        for c in self.cl.values():
+            if (c["tw"], c["th"]) == (W, H):
+                c["tw"], c["th"] = nW, nH
+            else:
+                c["tw"], c["th"] = rs(c["tw"], W, nW), rs(c["th"], H, nH)
+            c["synced"] = False
+            c["dirty"] = True
+        self.W, self.H = nW, nH
+        self.emit("geom")
+        for j in sorted(self.cl):
+            if rng.random() < 0.85:
+                self.full_req(j, rng.randint(0, 1))     # everything is marked modified: incremental is enough
+                self.cl[j]["synced"] = True
+                self.pic(j)
 
     def copy(self):
         """rfbDoCopyRect: destination and source inside the screen"""
@@ -256,6 +328,8 @@ class Gen:
             self.scale(i)
         elif r < 0.46:
             for _ in range(rng.choice([1, 1, 1, 2, 3])):
+                if rng.random() < 0.35 and self.tile_draw():
+                    continue
                 if rng.random() < 0.2:
                     self.copy()
                 else:
@@ -283,10 +357,12 @@ class Gen:
                 self.emit("req %d %d %d %d %d %d" % (i, rng.randint(0, 1), x, y, w, h))
         elif r < 0.62:
             self.pic(i)
-        elif r < 0.70:
+        elif r < 0.68:
             self.pointer(i)
-        elif r < 0.74:
+        elif r < 0.71:
             self.mark_overshoot()
+        elif r < 0.74:
+            self.newfb()
         elif r < 0.82:
             if len(ids) < 3 and self.next_id < 8:
                 j = self.join()
@@ -368,11 +444,15 @@ def oracle(script, impl):
     """property oracle on the implementation's observations only"""
     ops = ops_of(script)
     if len(ops) != len(impl):
+        for ob in impl:
+            if "ORACLE" in ob:
+                return ob
         return "observation count %d != ops %d" % (len(impl), len(ops))
     W = H = None
     dims = {}       # live client -> dims of its scaled screen as told / implied by the protocol
     nfs_wait = {}   # nfs clients whose size announcement is still to come
     defer, owner, lastmask, pend = 0, None, {}, {}   # pointer delivery: defer time, grabbing client, coalesced
+    nfs_clients = set()
     for (op, sure), ob in zip(ops, impl):
         t = op.split()
         if "ORACLE" in ob:
@@ -383,6 +463,22 @@ def oracle(script, impl):
             W, H = int(t[1]), int(t[2])
         elif t[0] == "client":
             dims[int(t[1])] = (W, H)
+            if int(t[2]):
+                nfs_clients.add(int(t[1]))
+        elif t[0] == "newfb":
+            if ob != "ok":
+                continue
+            nW, nH = int(t[1]), int(t[2])
+            for i in list(dims):
+                if dims[i] == (W, H):
+                    dims[i] = (nW, nH)
+                else:
+                    dims[i] = (max(1, dims[i][0] * nW // W), max(1, dims[i][1] * nH // H))
+                if i in nfs_clients:
+                    nfs_wait[i] = dims[i]
+            for i, p in list(pend.items()):
+                pass
+            W, H = nW, nH
         elif t[0] in ("leave", "scalecut"):
             dims.pop(int(t[1]), None)
             pend.pop(int(t[1]), None)
@@ -577,6 +673,10 @@ def relation_script(rng, tier):
 
 def run(ctx):
     h = ctx.harness("c17")
+    # minilzo (vendored) loads 32-bit words at unaligned addresses by design (UBSan "misaligned load"
+    # inside lzo1x_1_compress, harmless on x86, same treatment as C01/C03): scripts with an Ultra
+    # client use a build without the alignment check, everything else the full sanitizer set
+    h_noalign = ctx.harness("c17", extra=("-fno-sanitize=alignment",))
     d = ctx.driver("drv_c17")
     fails, samples = [], []
     dist = {"ops": {}, "fmt": {}, "factor_kind": {"divides_both": 0, "non_dividing": 0, "to_1": 0, "to_0": 0,
@@ -617,7 +717,7 @@ def run(ctx):
 
     def one(item):
         name, sc, flags = item
-        return common.compare_streams(ctx, sc, h, d, "scale." + name, timeout=600)
+        return common.compare_streams(ctx, sc, h_noalign if " ultra\n" in sc else h, d, "scale." + name, timeout=600)
 
     results = common.pmap(one, scripts)
     evals, nontrivial = 0, set()
